@@ -1743,7 +1743,7 @@ class Wtp:
                     # print("TEMPLATE EXPANDED: {} {} -> {!r}"
                     #       .format(name, ht, t))
                     t = add_newline_to_expansion(t)
-                    if post_template_fn is not None and t:
+                    if post_template_fn is not None and t is not None:
                         t2 = post_template_fn(urllib.parse.unquote(name), ht, t)
                         if t2 is not None:
                             t = t2
